@@ -813,3 +813,136 @@ Example ex_answers :
   fst (auto_image_class (fun _ => 1) ex_cfg (profile_terminal ex_profile ex_delays) (ex_tty, None))
     = Some Kitty.
 Proof. repeat split; vm_compute; reflexivity. Qed.
+
+(** ** one cache epoch: several argument forms of the colour getter, repeated calls *)
+
+Lemma hex2_two_hex v : 0 <= v <= 255 -> hex2 v = two_hex v.
+Proof.
+  intros H.
+  assert (T : forallb (fun n => let v := Z.of_nat n in
+                        (hex_digit_lc (v / 16) =? lc_hex_digit (v / 16)) &&
+                        (hex_digit_lc (v mod 16) =? lc_hex_digit (v - 16 * (v / 16)))) (seq 0 256) = true)
+    by (vm_compute; reflexivity).
+  rewrite forallb_forall in T. specialize (T (Z.to_nat v)).
+  assert (Hin : In (Z.to_nat v) (seq 0 256)) by (apply in_seq; lia).
+  specialize (T Hin). cbn zeta in T. rewrite Z2Nat.id in T by lia.
+  apply andb_true_iff in T as [T1 T2]. apply Z.eqb_eq in T1, T2.
+  unfold hex2, two_hex. now rewrite T1, T2.
+Qed.
+
+Lemma exp_comp_range c : wf_comp c = true -> 0 <= exp_comp c <= 255.
+Proof.
+  intros H. apply wf_comp_facts in H as [Hn Hh].
+  destruct (scale_component_range c Hn Hh) as (v & _ & <- & R). exact R.
+Qed.
+
+Lemma hex_rgb_hash r : wf_rgb r = true -> hex_rgb (exp_rgb r) = hash_rgb (exp_rgb r).
+Proof.
+  unfold wf_rgb. intros H. apply andb_true_iff in H as [H H3]. apply andb_true_iff in H as [H1 H2].
+  unfold exp_rgb, hex_rgb, hash_rgb.
+  rewrite !hex2_two_hex by now apply exp_comp_range. reflexivity.
+Qed.
+
+Lemma represent_exp cfg p h : enabled cfg = true -> wf_profile p = true ->
+  represent h (exp_fg_bg cfg p) = exp_colours cfg p h.
+Proof.
+  intros Hen Hwf. destruct (wf_profile_parts p Hwf) as (_ & Hf & Hb & _).
+  unfold exp_colours, exp_fg_bg, represent. rewrite Hen. destruct h; [|reflexivity]. cbn [fst snd].
+  f_equal. f_equal.
+  - destruct (p_fg p) as [[fg|raw]|]; try discriminate; cbn [wf_of option_map wf_reply] in *; [|reflexivity].
+    f_equal. now apply hex_rgb_hash.
+  - destruct (p_bg p) as [[bg|raw]|]; try discriminate; cbn [wf_of option_map wf_reply] in *; [|reflexivity].
+    f_equal. now apply hex_rgb_hash.
+Qed.
+
+Section EpochEnd.
+Variable cost : nat -> Z.
+Variable c : Z.
+Hypothesis cost_bounded : forall i, 0 <= cost i <= c.
+Variable cfg : config.
+Hypothesis Hen : enabled cfg = true.
+Hypothesis Hto : 0 < qtimeout cfg.
+Variable p : profile.
+Hypothesis Hwf : wf_profile p = true.
+Variable delays : list byte -> list Z.
+Let term := profile_terminal p delays.
+Variables D1 D2 : Z.
+Hypothesis timely_fg : timely c cfg term FGBG_request D1.
+Hypothesis timely_nv : timely c cfg term XTV_request D2.
+
+(** every memo entry is the specified answer for ITS key (argument form), and nothing is
+    pending on the terminal *)
+Definition epoch_ok (w : epoch) : Prop :=
+  let '(st, mfg, mnv) := w in
+  pend st = [] /\
+  (forall f v, lookup_form f mfg = Some v -> v = exp_colours cfg p (form_hex f)) /\
+  (mnv = None \/ mnv = Some (exp_name_version cfg p)).
+
+Lemma session_step_ok call w : epoch_ok w ->
+  fst (session_step cost cfg term call w) = exp_call cfg p call /\
+  epoch_ok (snd (session_step cost cfg term call w)).
+Proof.
+  destruct w as [[st mfg] mnv]. intros (Hp & Hm & Hn). destruct call as [f|]; cbn [session_step].
+  - destruct (lookup_form f mfg) as [v|] eqn:El.
+    + cbn [fst snd exp_call]. split; [|now repeat split].
+      rewrite (Hm f v El). destruct f; reflexivity.
+    + destruct (fg_bg_reports_profile cost c cost_bounded cfg Hen Hto p Hwf delays st D1 Hp timely_fg)
+        as (st' & E & Hp' & _). fold term in E. rewrite E. cbn [fst snd exp_call].
+      rewrite represent_exp by assumption. split; [destruct f; reflexivity|].
+      repeat split; auto. intros g v. cbn [lookup_form].
+      destruct (form_eqb g f) eqn:Eg.
+      * intros [= <-]. destruct g, f; cbn in Eg; try discriminate; try reflexivity.
+        apply Bool.eqb_prop in Eg. now subst.
+      * apply Hm.
+  - unfold cached_name_version. cbn [snd fst].
+    destruct Hn as [-> | ->].
+    + destruct (name_version_reports_profile cost c cost_bounded cfg Hen Hto p Hwf delays st D2 Hp timely_nv)
+        as (st' & E & Hp' & _). fold term in E. rewrite E. cbn [fst snd exp_call].
+      destruct (exp_name_version cfg p) as [n v] eqn:Env. cbn [fst snd]. split; [reflexivity|].
+      repeat split; auto. right. now rewrite Env.
+    + cbn [fst snd exp_call]. destruct (exp_name_version cfg p) as [n v] eqn:Env. cbn [fst snd].
+      split; [reflexivity|]. repeat split; auto. right. now rewrite Env.
+Qed.
+
+(** One cache epoch, ANY sequence of calls — get_fg_bg_colors(), (hex=False), (hex=True),
+    get_terminal_name_version(), in any order, any number of times: every call reports the
+    profile's colours in the representation THAT call asked for (resp. the profile's
+    identity), and nothing is left unread.  (The memo key has the keyword values.) *)
+Lemma epoch_reports_profile calls : forall w, epoch_ok w ->
+  fst (session cost cfg term calls w) = map (exp_call cfg p) calls /\
+  epoch_ok (snd (session cost cfg term calls w)).
+Proof.
+  induction calls as [|call calls IH]; intros w Hw; cbn [session map].
+  - now split.
+  - destruct (session_step_ok call w Hw) as [E1 Hw1].
+    destruct (session_step cost cfg term call w) as [r w1]. cbn [fst snd] in *.
+    destruct (IH w1 Hw1) as [E2 Hw2].
+    destruct (session cost cfg term calls w1) as [rs w2]. cbn [fst snd] in *.
+    split; [now rewrite E1, E2|exact Hw2].
+Qed.
+
+Lemma epoch_from_fresh st calls : pend st = [] ->
+  fst (session cost cfg term calls (st, [], None)) = map (exp_call cfg p) calls /\
+  pend (fst (fst (snd (session cost cfg term calls (st, [], None))))) = [].
+Proof.
+  intros Hp. destruct (epoch_reports_profile calls (st, [], None)) as [E H].
+  { repeat split; auto. intros f v. discriminate. }
+  split; [exact E|]. destruct (snd (session cost cfg term calls (st, [], None))) as [[st' m1] m2].
+  now destruct H.
+Qed.
+
+End EpochEnd.
+
+(** the two representations really differ, and the three argument forms are three keys *)
+Example ex_epoch :
+  fst (session (fun _ => 1) ex_cfg (profile_terminal ex_profile ex_delays)
+         [SFg (FHex false); SFg (FHex true); SFg FDefault; SFg (FHex true); SNv; SNv] (ex_tty, [], None))
+  = [RFg (Some (VRgb (Some (255, 255, 255), Some (0, 128, 171))));
+     RFg (Some (VHex (Some (bs "#ffffff"), Some (bs "#0080ab"))));
+     RFg (Some (VRgb (Some (255, 255, 255), Some (0, 128, 171))));
+     RFg (Some (VHex (Some (bs "#ffffff"), Some (bs "#0080ab"))));
+     RNv (Some (bs "kitty")) (Some (bs "0.26.5")); RNv (Some (bs "kitty")) (Some (bs "0.26.5"))] /\
+  length (written (fst (fst (snd (session (fun _ => 1) ex_cfg (profile_terminal ex_profile ex_delays)
+         [SFg (FHex false); SFg (FHex true); SFg FDefault; SFg (FHex true); SNv; SNv] (ex_tty, [], None))))))
+  = 4%nat.
+Proof. split; vm_compute; reflexivity. Qed.
